@@ -5,7 +5,7 @@ import DashLive.Props.C08
 # C18 – the bundled validator accepts what the server generates and flags corruptions
 
 Property theorems only.  Model: `Model/Validator.lean` (the validator's decision logic, after
-the `fix:` commits 3c714d3, 0554b9e, 1951de2, c08f3f9, b7314e3); helper lemmas:
+the `fix:` commits 3c714d3, 0554b9e, 1951de2, c08f3f9, b7314e3, a2de2ac); helper lemmas:
 `Lemmas/Validator.lean`.  Server side: `Model/Segments.lean` with the theorems of
 `Props/C02.lean`, `Model/LiveTiming.lean` with `Props/C08.lean`.
 
@@ -154,7 +154,7 @@ sequence (`timeline_is_slice`: that is what the server advertises); for each ent
 segment carries the decode time of `C02_time_tfdt_exact`, the number `t / sd + sn` the handler
 writes (`liveIndex`), and its stored sample durations.  Then no segment of the pass gains an
 error. -/
-theorem validator_accepts_time_addressing
+theorem validator_accepts_time_addressing_partial
     (durs : List Nat) (R sd sn g0 k : Nat) (c : RepCtx) (tol : Nat) (obs : Nat → SegObs)
     (hn : 0 < durs.length) (h1 : StartsInsideLoop durs R) (h2 : PositiveDurs durs)
     (hsound : ∀ i, i < k → Sound c 0 (obs i))
@@ -240,7 +240,7 @@ theorem genTemplate_eq (audio : Bool) (ts fn fd sd : Nat) (N0 : Int) (n : Nat) :
 (`getSegmentIndex` of `(N − sn)·sd`, decode time = start of the position).  The validator's
 continuity check uses `delta = expected_duration // 2` against the half-segment bound of
 `C02_number_bounds` (`hhalf`) and its decode-time tolerance against the loop drift (`hcont`). -/
-theorem validator_accepts_number_addressing
+theorem validator_accepts_number_addressing_partial
     (durs : List Nat) (R sd g0 k : Nat) (sn N0 : Int) (c : RepCtx) (tolOf : Nat → Nat)
     (obs : Nat → SegObs)
     (hsn : c.startNumber = sn) (htd : c.tmplDuration = some sd)
@@ -613,7 +613,7 @@ theorem validator_detects_missing_s_duration (pre post : List SElem) (s : SElem)
 
 /-- the `<S>` list the server writes is expanded by the validator into exactly the slice
 `[(startG g, durG' g) | g₀ ≤ g < g₀+k]` of the global sequence that `timeline_is_slice`
-proves for DASH's reading – so `validator_accepts_time_addressing` is about the list the
+proves for DASH's reading – so `validator_accepts_time_addressing_partial` is about the list the
 validator really generates its expectations from. -/
 theorem validator_timeline_is_slice (durs : List Nat) (R ts tcF tsbd fuel : Nat) (hn : 0 < durs.length)
     (hpos : AdvPositive durs R) (s : SNode) (rest : List SNode) (t0 : Int)
@@ -639,7 +639,7 @@ open DashLive.LiveTiming in
 two update periods after the first (the validator sleeps until `publishTime + minimumUpdatePeriod`,
 validator.py:306-324).  Then `publishTime` has advanced by less than `3·minimumUpdatePeriod`
 (`publish_in_range`, `publish_quantised`). -/
-theorem validator_accepts_refresh (now₁ now₂ : Int) (ref : Ref) (o : Options) (p : Int)
+theorem validator_accepts_refresh_partial (now₁ now₂ : Int) (ref : Ref) (o : Options) (p : Int)
     (h₁ : Accepted now₁ o) (h₂ : Accepted now₂ o)
     (hast : (calculateLiveParams now₁ ref o).availabilityStartTime
               = (calculateLiveParams now₂ ref o).availabilityStartTime)
@@ -682,7 +682,7 @@ example : Sound exCtx 0 (exObs 7 5760) :=
     dashTs := by decide }
 
 /-- bbb-like video (4 × 960 ticks at 240 Hz, reference = itself): the hypotheses of
-`validator_accepts_time_addressing` hold – `hcons` by `uniform_consecutive` – and the pass over
+`validator_accepts_time_addressing_partial` hold – `hcons` by `uniform_consecutive` – and the pass over
 three timeline entries starting at position 5 is clean -/
 example : located (repPass exCtx none (fetchAll
     ((sliceG [960, 960, 960, 960] 3840 5 3).map (timeExp 10))
@@ -695,6 +695,16 @@ example : ∀ i, i < 2 → startG [960, 960, 960, 960] 3840 (5 + i + 1) / 960
 example : located (repPass exCtx none (fetchAll
     ((List.range 3).map (numberExp 960 (templateTolerance false 240 24 1) 6))
     [exObs 6 4800, exObs 7 5760, exObs 8 6720])) = [] := by decide
+
+/-- … and its layout hypotheses `hsegdur`, `hhalf`, `hcont` at that instance
+(`g₀ = 5`, `N₀ = 6`, `sn = 1`, `sd = 960`, video tolerance 10 ticks) -/
+example : ∀ i, i < 2 →
+    almostEqual (960 : Int) (durG [960, 960, 960, 960] (5 + i)) 240 = true ∧
+    almostEqual (((6 : Int) + ((i + 1 : Nat) : Int) - 1) * 960)
+      ((startG [960, 960, 960, 960] 3840 (5 + i) : Int) + (durG [960, 960, 960, 960] (5 + i) : Int)) (960 / 2) = true ∧
+    almostEqual ((startG [960, 960, 960, 960] 3840 (5 + i) : Int) + (durG [960, 960, 960, 960] (5 + i) : Int))
+      (startG [960, 960, 960, 960] 3840 (5 + i + 1) : Int) (templateTolerance false 240 24 1 (i + 1)) = true := by
+  decide
 
 /-- **negative witness (ledger `time-seqnum-irregular`)**: an irregular layout
 (960, 480, 1440, 960 ticks; `segment_duration` 960) violates `hcons` – positions 1 and 2 start
@@ -776,5 +786,16 @@ def exRefresh (ast publish : Int) : Refresh :=
 example : refreshErrors (exRefresh 1000000 8000000) = [RefreshErr.availabilityStartTime] := by decide
 example : refreshErrors (exRefresh 0 24000000) = [RefreshErr.stale] := by decide
 example : refreshErrors (exRefresh 0 23999999) = [] := by decide
+
+open DashLive.LiveTiming in
+/-- non-vacuity of `validator_accepts_refresh_partial`: `start=year`, default update period of
+8 s, second request 9.5 s after the first – inside every hypothesis (the instants are C08's `exNow`) -/
+example : Accepted exNow { start := .year } ∧ Accepted (exNow + 9500000) { start := .year } ∧
+    (calculateLiveParams exNow exRef { start := .year }).availabilityStartTime
+      = (calculateLiveParams (exNow + 9500000) exRef { start := .year }).availabilityStartTime ∧
+    (calculateLiveParams exNow exRef { start := .year }).minimumUpdatePeriod = some 8 ∧
+    (exNow + 9500000) - exNow ≤ 2 * 8 * usPerSec :=
+  ⟨⟨by decide, by intro t off h; cases h⟩, ⟨by decide, by intro t off h; cases h⟩,
+   by decide +kernel, by decide +kernel, by decide⟩
 
 end DashLive.Validator
